@@ -346,16 +346,24 @@ class Model:
             return []
 
     def depth(self, v, _seen=0):
-        """Longest chain of nested grammar nodes; lists, tuples and annotations are transparent."""
-        if _seen > 5000:
-            return INF
-        if isinstance(v, (list, tuple)):
-            return max([self.depth(x, _seen + 1) for x in v] or [0])
-        if type(v) in BASE or v is None:
-            return 0
-        if not isinstance(v, tuple(c for c in self.registered)):
-            return 0
-        return 1 + max([self.depth(x, _seen + 1) for x in self.children(v)] or [0])
+        """Longest chain of nested grammar nodes; lists, tuples and annotations are transparent.
+        Iterative (explicit stack): programs hundreds of levels deep are legal inputs."""
+        regs = tuple(c for c in self.registered)
+        best, steps = 0, 0
+        stack = [(v, 0)]
+        while stack:
+            x, d = stack.pop()
+            steps += 1
+            if steps > 3000000 or d > 100000:
+                return INF
+            if isinstance(x, (list, tuple)):
+                stack.extend((c, d) for c in x)
+            elif type(x) in BASE or x is None:
+                continue
+            elif isinstance(x, regs):
+                best = max(best, d + 1)
+                stack.extend((c, d + 1) for c in self.children(x))
+        return best
 
     def canon(self, v, _d=0):
         if _d > 3000:
@@ -796,6 +804,8 @@ def desc_refinement_violations(built, v, t=None, path="$", siblings=None, out=No
         out = []
     if len(out) > 10 or depth > 400:
         return out
+    if built.desc.get("python"):
+        return out  # hand-built hierarchy: no descriptor to judge against
     if t is None:
         t = ["ref", built.desc["start"]]
     k = t[0]
@@ -805,9 +815,11 @@ def desc_refinement_violations(built, v, t=None, path="$", siblings=None, out=No
             out.append((path, t[2][0], r))
         desc_refinement_violations(built, v, t[1], path, None, out, depth + 1)
     elif k == "dep":
-        sib = (siblings or {}).get(t[2], _MISSING)
-        if sib is not _MISSING and type(sib) is int:
-            d = dep_params(t[3], t[4], sib)
+        names = t[2].split(",")
+        vals = [(siblings or {}).get(n, _MISSING) for n in names]
+        sib = vals[0]
+        if all(x is not _MISSING and type(x) is int for x in vals):
+            d = dep_params(t[3], t[4], *vals)
             if d is None:
                 out.append((path, "Dependent->infeasible", "value present although the dependency admits none for these siblings"))
             else:
